@@ -57,6 +57,10 @@ def _work(i):
                     "backend": "z3-5.1", "secs": 0.0, "exc": "", "detail": "", "model": {}})
                 continue
             v = smt.discharge(ob.pc, ob.goal, tmo, watch=ob.watch, hints=ob.hints)
+            if v.status == "refuted" and getattr(c, "candidate_refutations", False):
+                # the path condition over-approximates library results (e.g. re.sub by its assumed contract only):
+                # a counter-model is a candidate; it becomes a violation only if the replay reproduces a failure
+                v.status = "candidate"
             if v.status != "proved":
                 settled[ob.ident] = v.status     # one failing path decides the site
             res["obligations"].append({
@@ -246,7 +250,7 @@ class Report:
                     path = write_replay(self.prop, o["ident"], payload)
                     self.violations.append((o["ident"], str(path), ""))
                 else:
-                    self.undecided.append(f"obligation has a finite-domain counter-model candidate that the replay did "
+                    self.undecided.append(f"obligation has a counter-model candidate (over-approximated or finite-domain) that the replay did "
                                           f"not reproduce: {o['ident'][:160]}")
             elif o["status"] == "refuted":
                 wclass = o.get("exc", "")
@@ -277,6 +281,10 @@ class Report:
             kf = is_known(self.prop, b["ident"], b.get("witness_class", ""), self.known)
             if kf is not None:
                 self.known_hits.append((b, kf))
+                continue
+            if b.get("witness_class") in ("drift", "harness"):
+                # the text an assumed contract is keyed to was not found / the harness itself failed: undecided
+                self.undecided.append(f"bounded tier: {b['ident']}: {str(b.get('what', ''))[:160]}")
                 continue
             path = write_replay(self.prop, "bounded-" + b["ident"], dict(b, property=self.prop, tier="bounded"))
             self.violations.append((b["ident"], str(path), ""))
